@@ -279,6 +279,7 @@ func ruleC05(c *Check) {
 	c.handlerAddressArgs("C05.8")
 	c.ownerRecordsStable("C05.6")
 	c.exhaustiveLookup("C05.6")
+	c.addressRoles("C05.7")
 }
 
 func effMentions(e *Eff, term string) bool {
